@@ -52,7 +52,7 @@ func hPlace(k int) int {
 	case 0:
 		return 0
 	case 1:
-		return [2]int{1, 17}[vChoice("place1", 2)]
+		return [3]int{1, 17, 16}[vChoice("place1", 3)] // 16: first id of the second 16-id chunk
 	case 2:
 		if ecs.MaskTotalBits == 64 {
 			return [2]int{31, 32}[vChoice("place2", 2)]
